@@ -27,7 +27,7 @@ DISTINCT = set()
 
 
 def fail(tag, inp, detail, hint=""):
-    if len(FAILS) < 5:
+    if sum(1 for f in FAILS if f["tag"] == tag) < 3 and len(FAILS) < 12:
         FAILS.append({"tag": tag, "input": inp, "detail": str(detail)[:300], "obligation_hint": hint})
 
 
@@ -137,6 +137,9 @@ REAL_CFG = [
     dict(salt="n1", suffix=4, prefixes=["10.0.0.0/8", "10.0.0.0/16", "10.0.0.0/24"], addrs=None),
     dict(salt="n2", suffix=0, prefixes=["10.0.0.0/24", "10.0.0.0/8"], addrs=["10.0.0.0/30"]),
     dict(salt="n3", suffix=8, prefixes=None, addrs=["192.168.0.0/24", "10.0.0.0/24", "172.16.0.0/16", "0.0.0.0/8"]),
+    # default prefixes together with a preserved block far away from them
+    dict(salt="n4", suffix=8, prefixes=None, addrs=["203.0.113.0/24"]),
+    dict(salt="n5", suffix=0, prefixes=None, addrs=["8.8.8.8"]),
 ]
 
 
@@ -217,6 +220,36 @@ def c02():
             if back != exp:
                 fail("C02.file", {"config": c, "line": ln, "anon": out, "undone": back}, "undo did not restore the line",
                      "_anonymize_match")
+
+
+def c02_v6_special():
+    """file-level undo for IPv6 addresses whose IMAGE looks special (link-local, unique-local, multicast, loopback,
+    documentation, mapped ...): IPv6 has no exclusions, so undo(anonymize(line)) is the canonical line"""
+    blocks = ["fe80::/10", "fc00::/7", "ff00::/8", "::/128", "::1/128", "2001:db8::/32", "::ffff:0:0/96", "64:ff9b::/96",
+              "2002::/16", "fec0::/10", "100::/64"]
+    for c in REAL_CFG[:4]:
+        an = mk6(c)
+        pts = []
+        for b in blocks:
+            net = ipaddress.ip_network(b)
+            for _ in range(2 if TIER == "quick" else 20):
+                y = int(net.network_address) | (RNG.getrandbits(128 - net.prefixlen) if net.prefixlen < 128 else 0)
+                pts.append(mk6(c).deanonymize(y))        # an ordinary address whose image lies in the block
+                pts.append(y)                            # and a member of the block itself
+        pts += [RNG.getrandbits(128) for _ in range(40 if TIER == "quick" else 1000)]
+        for x in pts:
+            txt = str(ipaddress.IPv6Address(x))
+            line = "ipv6 address %s/64 x\n" % txt
+            note(("v6-special", c["salt"], c["suffix"], x))
+            out = anonymize_ip_addr(an, line)
+            back = anonymize_ip_addr(mk6(c), out, True)
+            img = str(ipaddress.IPv6Address(mk6(c).anonymize(x)))
+            if out != "ipv6 address %s/64 x\n" % img:
+                fail("C02.v6-text", {"config": c, "line": line, "anon": out, "expected_image": img},
+                     "IPv6 address not replaced by its image", "_anonymize_match")
+            elif back != line:
+                fail("C02.v6-undo", {"config": c, "line": line, "anon": out, "undone": back},
+                     "undo did not restore the IPv6 address", "_anonymize_match")
 
 
 def c03():
@@ -472,18 +505,19 @@ def c17():
                      "dump_to_file")
 
 
-CHECKS = {"C01": [c01_tiny, c01_real, lambda: c_text_consistency("C01.text")], "C02": [c02], "C03": [c03, c03_text], "C04": [c04],
+CHECKS = {"C01": [c01_tiny, c01_real, lambda: c_text_consistency("C01.text")], "C02": [c02, c02_v6_special], "C03": [c03, c03_text], "C04": [c04],
           "C05": [c05, c05_nested, lambda: c_text_consistency("C05.text")], "C17": [c17]}
 BOUNDS = {
     "C01": "real base class at widths 1..4 (quick) / 1..5 (thorough), salter truth tables (all for width<=3), all host-bit counts, "
            "5 seed sets, all address pairs; real IpAnonymizer/IpV6Anonymizer: 7 configurations x every common-prefix length x 2/20 pairs",
-    "C02": "same tiny space with fresh-instance undo; 7 real configurations; 2 text lines x 3 configurations for file-level undo",
+    "C02": "same tiny space with fresh-instance undo; 12 real configurations; 2 text lines x 3 configurations for file-level undo; "
+           "4 configurations x (11 special IPv6 blocks x 2/20 members and pre-images + 40/1000 random addresses) anonymize + fresh undo at text level",
     "C03": "300/5000 tiny configurations x random anonymize/undo histories of length 3*2^w vs fresh instance per request; "
            "text-level API: 4 real configurations x 2 families x 8/60 interleaved anonymize/undo lines vs fresh instance",
-    "C04": "tiny space (prefix both ways, host bits, head independence); 7 real configurations x boundary and random addresses, both families",
+    "C04": "tiny space (prefix both ways, host bits, head independence); 12 real configurations x boundary and random addresses, both families",
     "C05": "all 64 masks x 32 one-bit perturbations through the real _is_mask; 300/5000 preserved and outside addresses; "
            "5 nested/overlapping preserved-network lists x 2 host-bit counts x boundary, post-inner-block and random members",
-    "C17": "7 configurations x 30/400 generated lines, dump parsed back and compared with the applied replacements and a fresh mapping",
+    "C17": "12 configurations x 30/400 generated lines, dump parsed back and compared with the applied replacements and a fresh mapping",
 }
 
 
